@@ -8,6 +8,21 @@ TB = ('rustc nightly front-end/MIR construction; the grmfacts driver (/verif/dri
       'calls taking only shared references are treated as pure functions of their arguments')
 
 CHECKS = {
+    'C01': dict(
+        level='other',
+        text='ONLY the individual steps of the LR(1) construction: the start item is (start production, dot 0) with context {EOF}; '
+             'in the closure the lookahead of the items added for the rule behind the dot of (p, d) comes from the symbols '
+             'after position d+1, the scratch context is cleared first, the context of that same item is ored in exactly on '
+             'the paths on which the scan of the suffix ran to its end, and the items added are the productions of that rule '
+             'at dot 0; goto carries an item over iff it is incomplete and its symbol at the dot is the transition symbol, '
+             'with the same production and context and dot + 1; every incomplete item\'s symbol at the dot gets one '
+             'successor per state, computed by goto on that very symbol.',
+        note='Each step is a necessary condition of "accepts exactly L(G)". That the steps compose to the canonical automaton '
+             '(after Pager merging: C02) and language equality as such are NOT decided. Related steps are reported under other '
+             'properties: closure work-list discipline and FIRST/nullable pairing (C04 R4.4/R4.5), reduce/accept cells (C03), '
+             'shift/goto targets (C16). Trusted: ' + TB,
+        technique='symbolic path tables of Itemset::close / Itemset::goto / pager_stategraph extracted from MIR and compared with the textbook step',
+        ref='§4 C01'),
     'C02': dict(
         level='other',
         text='Merging discipline of the Pager construction: a changing weak merge discards the closed form of exactly the merged '
@@ -230,7 +245,6 @@ CHECKS = {
 }
 
 NA = {
-    'C01': 'language equality of the generated automaton is a property of computed item sets for every grammar x input; no structural clause beyond what C02/C16 cover',
     'C13': 'equivalence of compile-time and run-time pipelines is per-program translation validation and needs both to be run; statically visible parts are covered under C11/C14/C15',
 }
 
